@@ -7,6 +7,7 @@ import (
 	"context"
 	"fmt"
 	"slices"
+	"sync"
 	"time"
 
 	"github.com/ava-labs/avalanchego/ids"
@@ -79,6 +80,27 @@ func (v *VM[I, O, A]) FinishStateSync(ctx context.Context, input I, output O, ac
 }
 
 func (v *VM[I, O, A]) verifyProcessingBlocks(ctx context.Context) error {
+	// Reject does not hold the chain lock, so a processing block may be rejected while we re-verify.
+	// Start tracking rejections before taking the snapshot of processing blocks: a block rejected
+	// from here on is resolved, whether or not its re-verification fails below.
+	var (
+		rejectedL          sync.Mutex
+		rejected           = set.NewSet[ids.ID](0)
+		unresolvedBlkCheck *unresolvedBlockHealthCheck[I]
+	)
+	v.AddPreRejectedSub(event.SubscriptionFunc[I]{
+		NotifyF: func(_ context.Context, input I) error {
+			rejectedL.Lock()
+			defer rejectedL.Unlock()
+
+			rejected.Add(input.GetID())
+			if unresolvedBlkCheck != nil {
+				unresolvedBlkCheck.Resolve(input.GetID())
+			}
+			return nil
+		},
+	})
+
 	// Sort processing blocks by height
 	v.verifiedL.Lock()
 	v.log.Info("Verifying processing blocks after state sync", zap.Int("numBlocks", len(v.verifiedBlocks)))
@@ -123,13 +145,10 @@ func (v *VM[I, O, A]) verifyProcessingBlocks(ctx context.Context) error {
 		}
 	}
 
-	unresolvedBlkCheck := newUnresolvedBlocksHealthCheck[I](invalidBlkIDs)
-	v.AddPreRejectedSub(event.SubscriptionFunc[I]{
-		NotifyF: func(_ context.Context, input I) error {
-			unresolvedBlkCheck.Resolve(input.GetID())
-			return nil
-		},
-	})
+	rejectedL.Lock()
+	invalidBlkIDs.Difference(rejected)
+	unresolvedBlkCheck = newUnresolvedBlocksHealthCheck[I](invalidBlkIDs)
+	rejectedL.Unlock()
 	if err := v.RegisterHealthChecker(unresolvedBlocksHealthChecker, unresolvedBlkCheck); err != nil {
 		return err
 	}
